@@ -13,7 +13,7 @@ From Relay Require Import Base.Prelude Base.AList Model.Rwc.
 Record obs := mkobs {
   o_rules : list (N * N * N);     (* id, stream, destination; sorted by id *)
   o_clients : list (N * N);       (* id, destination *)
-  o_members : list N;             (* destination of every client registered with the messages hub *)
+  o_members : list N;             (* 10 * destination + stream of every client registered with the messages hub *)
   o_open : list N;
   o_recv : list N }.
 
@@ -37,7 +37,7 @@ Definition clients_ok (s : st) (l : list (N * N)) : bool :=
                     | None => false
                     end) l.
 
-(* registered with the messages hub: the same destinations, with the same multiplicity *)
+(* registered with the messages hub: the same (destination, stream) pairs, with the same multiplicity *)
 Fixpoint remove1 (x : N) (l : list N) : option (list N) :=
   match l with
   | [] => None
@@ -49,7 +49,7 @@ Fixpoint perm_eqb (a b : list N) : bool :=
   | x :: r => match remove1 x b with Some b' => perm_eqb r b' | None => false end
   end.
 Definition members_ok (s : st) (l : list N) : bool :=
-  perm_eqb l (map (fun c => rdest (crule c)) (members s)).
+  perm_eqb l (map (fun c => 10 * rdest (crule c) + rstream (crule c))%N (members s)).
 
 Definition live_dests (s : st) : list N := map (fun e => rdest (crule (snd e))) (clients s).
 
